@@ -132,6 +132,25 @@ class World(object):
                 return True
         return False
 
+    def in_thread(self, th, fn, *args):
+        """run fn(*args) in the main thread or in a fresh worker thread of the same process"""
+        if th in (None, "main"):
+            return fn(*args)
+        import threading
+        box = {}
+
+        def body():
+            try:
+                box["r"] = fn(*args)
+            except BaseException as ex:      # the do_* functions catch everything themselves
+                box["e"] = ex
+        t = threading.Thread(target=body)
+        t.start()
+        t.join()
+        if "e" in box:
+            raise box["e"]
+        return box["r"]
+
     def do_assign(self, value):
         try:
             self.xfab.CHECKS.activated = value
@@ -198,10 +217,10 @@ def replay_behaviour(w, hist, v, origin):
                                         # a cached / memoised check that depends on the history is then exercised
     for k, e in enumerate(hist):
         if e["ev"] == "assign":
-            out, sw = w.do_assign(w.assign_value(e["v"]))
-            desc = "CHECKS.activated = %r" % (w.assign_value(e["v"]),)
+            out, sw = w.in_thread(e.get("th"), w.do_assign, w.assign_value(e["v"]))
+            desc = "CHECKS.activated = %r%s" % (w.assign_value(e["v"]), " (in a worker thread)" if e.get("th") == "worker" else "")
         elif e["ev"] == "other_instance":
-            out, sw = w.do_other_instance(w.assign_value(e["v"]))
+            out, sw = w.in_thread(e.get("th"), w.do_other_instance, w.assign_value(e["v"]))
             desc = "checks._checkState().activated = %r (a second instance)" % (w.assign_value(e["v"]),)
         else:
             key = (e["m"] if e["f"] in ("ubi_to_u", "ubi_to_u_and_eps", "ub_to_u_b", "ubi_to_rod", "ubi_to_u_b") else "", e["f"], e["c"])
@@ -210,8 +229,8 @@ def replay_behaviour(w, hist, v, origin):
             args = reuse[key]
             valid = e["c"] in VALID
             ref = w.reference(e["m"], e["f"], args) if valid else None
-            out, res, sw = w.do_call(e["m"], e["f"], e["c"], args, valid)
-            desc = "%s.%s(<%s>)" % (e["m"], e["f"], e["c"])
+            out, res, sw = w.in_thread(e.get("th"), w.do_call, e["m"], e["f"], e["c"], args, valid)
+            desc = "%s.%s(<%s>)%s" % (e["m"], e["f"], e["c"], " (in a worker thread)" if e.get("th") == "worker" else "")
             if valid and out == "returns" and not isinstance(ref, Exception) and not same(res, ref, np):
                 v.violation("%s returns a different value with the switch %s than with it on" %
                             (desc, "on" if sw else "off"), {"behaviour": hist, "step": k, "origin": origin})
@@ -254,9 +273,10 @@ def record_traces(w, n, maxlen, seed):
                       ("ubi_to_u_b", ["validubi", "lefthanded"])):
             calls += [(m, f, c) for c in cs]
     calls += [("symmetry", "Umis", c) for c in ["valid64", "valid32", "nonorth", "nonorth2", "detm1"]]
-    ev = st.one_of(st.sampled_from(assign_vals).map(lambda x: ("assign", x)),
-                   st.sampled_from(["True", "False", "int1"]).map(lambda x: ("other", x)),
-                   st.sampled_from(calls).map(lambda x: ("call", x)))
+    ev0 = st.one_of(st.sampled_from(assign_vals).map(lambda x: ("assign", x)),
+                    st.sampled_from(["True", "False", "int1"]).map(lambda x: ("other", x)),
+                    st.sampled_from(calls).map(lambda x: ("call", x)))
+    ev = st.tuples(ev0, st.sampled_from(["main", "main", "worker"])).map(lambda p: (p[0][0], p[0][1], p[1]))
     traces = []
 
     @hseed(seed)
@@ -267,21 +287,21 @@ def record_traces(w, n, maxlen, seed):
         w.xfab.CHECKS.activated = True
         tr = []
         reuse = {}
-        for kind, x in seq:
+        for kind, x, th in seq:
             if kind == "assign":
-                out, sw = w.do_assign(w.assign_value(x))
-                tr.append({"ev": "assign", "v": x, "out": out, "sw": sw})
+                out, sw = w.in_thread(th, w.do_assign, w.assign_value(x))
+                tr.append({"ev": "assign", "v": x, "out": out, "sw": sw, "th": th})
             elif kind == "other":
-                out, sw = w.do_other_instance(w.assign_value(x))
-                tr.append({"ev": "other_instance", "v": x, "out": out, "sw": sw})
+                out, sw = w.in_thread(th, w.do_other_instance, w.assign_value(x))
+                tr.append({"ev": "other_instance", "v": x, "out": out, "sw": sw, "th": th})
             else:
                 m, f, c = x
                 key = (m if f in ("ubi_to_u", "ubi_to_u_and_eps", "ub_to_u_b", "ubi_to_rod", "ubi_to_u_b") else "", f, c)
                 if key not in reuse:
                     reuse[key] = w.make(m, f, c)
                 args = reuse[key]
-                out, res, sw = w.do_call(m, f, c, args, c in VALID)
-                tr.append({"ev": "call", "m": m, "f": f, "c": c, "out": out, "sw": sw})
+                out, res, sw = w.in_thread(th, w.do_call, m, f, c, args, c in VALID)
+                tr.append({"ev": "call", "m": m, "f": f, "c": c, "out": out, "sw": sw, "th": th})
         traces.append(tr)
 
     drive()
@@ -311,8 +331,11 @@ def suite_trace(wd):
         raise common.MachineryError("suite trace was not written: %s" % p.stdout.decode("utf-8", "replace")[-800:])
     ev = json.load(open(out))
     os.remove(out)
-    if not ev or ev[0].get("ev") != "init" or ev[0]["sw"] is not True:
-        raise common.MachineryError("suite trace does not start from the switched-on state")
+    if not ev or ev[0].get("ev") != "init":
+        raise common.MachineryError("suite trace does not start with the init record")
+    # the model starts switched on; which state the package starts in is not part of the property - a package that starts switched
+    # off is represented as the model's initial state followed by one valid assignment
+    start_off = ev[0]["sw"] is not True
     # calls do not change the specification's state: between two assignments every distinct call event is kept once
     comp, seen = [], set()
     for e in ev[1:]:
@@ -324,6 +347,8 @@ def suite_trace(wd):
         else:
             seen = set()
         comp.append(e)
+    if start_off:
+        comp.insert(0, {"ev": "assign", "v": "False", "out": "ok", "sw": False, "th": "main"})
     return comp
 
 
@@ -345,6 +370,19 @@ def run(tier, seed):
             nb += 1
             ok = replay_behaviour(w, x["hist"], v, "exhaustive")
             v.case(("B", repr(x["hist"])), sample=x["hist"] if len(v.samples) < 2 else None)
+            if len(v.violations) > 200:
+                break
+        # R, exhaustive over a reduced alphabet with events issued from two threads of the process
+        rT = common.run_tlc("Checks", "MC_ChecksT.cfg" if tier == "quick" else "MC_ChecksT3.cfg", wd, timeout=3000, heap="12g")
+        if rT.violated:
+            raise common.MachineryError("Checks.tla (two threads) violates its own invariants: %s" % rT.violated)
+        states += rT.distinct
+        trans += rT.generated
+        recsT = rT.records if len(rT.records) <= 60000 else rng_sample(rT.records, 60000, seed)
+        for x in recsT:
+            nb += 1
+            replay_behaviour(w, x["hist"], v, "exhaustive, two threads")
+            v.case(("BT", repr(x["hist"])))
             if len(v.violations) > 200:
                 break
         # R, long simulated behaviours
@@ -397,8 +435,11 @@ def run(tier, seed):
                 suite = [q for q in suite if not str(q["out"]).startswith("other:")]
             good.append(suite)
         # binding demonstration, always on: two corrupted traces that MUST be rejected
-        canary = [[{"ev": "assign", "v": "False", "out": "ok", "sw": True}],                       # corrupted field
-                  [{"ev": "call", "m": "tools", "f": "u_to_rod", "c": "nonorth", "out": "unchecked", "sw": False}]]  # dropped assignment
+        canary = [[{"ev": "assign", "v": "False", "out": "ok", "sw": True, "th": "main"}],                       # corrupted field
+                  [{"ev": "call", "m": "tools", "f": "u_to_rod", "c": "nonorth", "out": "unchecked", "sw": False, "th": "worker"}]]  # dropped assignment
+        for t_ in good:
+            for e_ in t_:
+                e_.setdefault("th", "main")
         common.write_data_module(wd, "ChecksTraces", {"Traces": good + canary})
         rt = common.run_tlc("Trace_Checks", "MC_Trace_Checks.cfg", wd, timeout=1800, depth_first=True)
         states += rt.distinct
